@@ -36,6 +36,13 @@ M = [
     ('task', '_PredecessorsList.append', 'pjplan/task.py', "        self.__parent.predecessors = [v for v in self.__parent.predecessors] + [task]", "        self.__parent.predecessors = [task] + [v for v in self.__parent.predecessors]", 'comes-last'),
     ('task', '_SuccessorsList.remove', 'pjplan/task.py', "        self.__parent.successors = [v for v in self.__parent.successors if v != task]\n        return True", "        self.__parent.successors = [v for v in self.__parent.successors if v != task]\n        return False", 'membership'),
     ('task', '_PredecessorsList.remove', 'pjplan/task.py', "        self.__parent.predecessors = [v for v in self.__parent.predecessors if v != task]", "        self.__parent.predecessors = [v for v in self.__parent.predecessors]", 'without-the-task'),
+    ('children', 'children.setter', 'pjplan/task.py', "            if not any(v is n for n in value):\n                v._detach()", "            pass", 'detached'),
+    ('children', 'children.setter', 'pjplan/task.py', "            v.__parent = None\n            if not any(v is n for n in value):\n                v._detach()", "            if any(v is n for n in value):\n                v.__parent = None\n            else:\n                v._detach()", 'parents'),
+    ('children', 'children.setter', 'pjplan/task.py', "        self.__children.clear()\n\n        for v in value:\n            v.parent = self", "        for v in value:\n            v.parent = self", 'children-of-the-task'),
+    ('children', 'children.setter', 'pjplan/task.py', "        self.__children.clear()\n\n        for v in value:\n            v.parent = self", "        self.__children = []\n\n        for v in value:\n            v.parent = self", 'frame'),
+    ('children', 'children.setter', 'pjplan/task.py', "            if ch is self or self in ch.all_children:\n                raise RuntimeError(f\"Task {self.id} is a child of {ch.id}. Can't make child a parent of its parent\")\n            _check_no_links_to_ancestors(ch, self)",
+     "            if ch is self or self in ch.all_children:\n                raise RuntimeError(f\"Task {self.id} is a child of {ch.id}. Can't make child a parent of its parent\")", 'reason'),
+    ('children', 'children.setter', 'pjplan/task.py', "            if len([v for v in value if v.__wbs is not None and v.__wbs != self.__wbs]) > 0:", "            if len([v for v in value if v.__wbs is not None and v.__wbs == self.__wbs]) > 0:", 'reason'),
     ('closure', 'get_children', 'pjplan/task.py', "                yield ch\n                yield from get_children(ch)", "                yield from get_children(ch)\n                yield ch", 'depth-first'),
     ('closure', 'get_parent', 'pjplan/task.py', "                yield t\n                yield from get_parent(t.parent)", "                yield t", 'ancestors'),
     ('closure', 'get_predecessor', 'pjplan/task.py', "            for pr in t.predecessors:\n                yield pr\n                yield from get_predecessor(pr)", "            for pr in t.predecessors:\n                yield from get_predecessor(pr)", 'every-transitive'),
